@@ -289,6 +289,14 @@ func decodeStructValueSlice(field reflect.Value, fieldType reflect.StructField, 
 
 	value = strings.Trim(value, strip)
 
+	/* the list is what the field says: nothing survives from whatever
+	 * the member held before, and an empty field is an empty list - not
+	 * a list of one empty element */
+	field.Set(reflect.MakeSlice(field.Type(), 0, 0))
+	if value == "" {
+		return nil
+	}
+
 	for _, el := range strings.Split(value, delim) {
 		el = strings.Trim(el, strip)
 
